@@ -7,6 +7,7 @@ require (
 	github.com/hashicorp/go-plugin v0.0.0
 	github.com/hashicorp/yamux v0.1.1
 	google.golang.org/grpc v1.58.3
+	google.golang.org/protobuf v1.36.1
 )
 
 require (
@@ -19,7 +20,6 @@ require (
 	golang.org/x/sys v0.31.0 // indirect
 	golang.org/x/text v0.23.0 // indirect
 	google.golang.org/genproto/googleapis/rpc v0.0.0-20230711160842-782d3b101e98 // indirect
-	google.golang.org/protobuf v1.36.1 // indirect
 )
 
 replace github.com/hashicorp/go-plugin => /repo
